@@ -292,7 +292,7 @@ def probe_policy():
         try:
             tc.weighted_robinson_foulds_distance(a, b)
             res.append(True)
-        except ValueError:
+        except Exception:       # a ValueError is the refusal; anything else is left to the oracle to report
             res.append(False)
     if res[:2] == [True, False]:
         return "Current"
@@ -307,9 +307,12 @@ def probe_basal_drop():
     """does collapse_basal_bifurcation() still drop the removed seed edge's length when the kept edge has none
     (finding basal-collapse-drops-length-onto-missing)?  The model has both forms (C04Model.add_len, flag mg)."""
     import dendropy
-    t = dendropy.Tree.get(data="[&U]((A:1,B:1),(C:1,D:1):1);", schema="newick")
-    t.encode_bipartitions()
-    lens = [nd.edge.length for nd in t.seed_node.child_nodes() if nd.child_nodes()]
+    try:
+        t = dendropy.Tree.get(data="[&U]((A:1,B:1),(C:1,D:1):1);", schema="newick")
+        t.encode_bipartitions()
+        lens = [nd.edge.length for nd in t.seed_node.child_nodes() if nd.child_nodes()]
+    except Exception:
+        return False
     return lens == [None]
 
 
@@ -853,6 +856,21 @@ def oracle_r(case, obs):
     return None
 
 
+def gen_overwritten():
+    """True when coq/Gen/TreeCompare.v is not what the translator derives from this run's source"""
+    import os
+    from dv import gen_treecompare
+    try:
+        want = gen_treecompare.generate(core.REPO)
+    except Exception:
+        return False          # fail-closed stub: handled by proof_stage
+    try:
+        with open(os.path.join(core.COQ, "Gen", "TreeCompare.v")) as f:
+            return f.read() != want
+    except OSError:
+        return True
+
+
 def search(ctx, budget_s):
     t0 = time.time()
     rng = random.Random(ctx.seed + 404)
@@ -880,8 +898,10 @@ def show_sample(case, obs):
 def run(tier, seed, replay=None):
     ctx = core.Ctx("C04", tier, seed)
     ctx.assumptions = [
-        "model coq/Model/C04Model.v is a hand transcription of treecompare.py and of Tree.encode_bipartitions / "
-        "collapse_basal_bifurcation / bipartition_edge_map; tied by this correspondence run",
+        "treecompare.py is translated from its AST on every run (coq/Gen/TreeCompare.v) and proved equal to the model's "
+        "do_* functions; trusted there: the Python semantics stated for the primitives in coq/Model/C04Prims.v, the "
+        "parameter types by name, bipartition_length_diff_map = False; the Tree side (encode_bipartitions, "
+        "collapse_basal_bifurcation, bipartition_edge_map) is hand-transcribed and tied by this correspondence run",
         "edge lengths are dyadic (multiples of 2^-10), for which the library's float sums are exact; binary64 rounding and "
         "the final sqrt of euclidean_distance are outside the model (the radicand is compared exactly)",
         "structural edits between distance calls (child swaps, Edge.collapse, reseed_at, reroot_at_node, length and rooting "
@@ -898,9 +918,20 @@ def run(tier, seed, replay=None):
         return 0
     # euclid_triangle_sqrt is stated over Coq's classical reals: the three standard axioms of Coq.Reals are allowed
     # (every other theorem must be closed under the global context - they are, see evidence.trusted_base)
-    ok = core.proof_stage(ctx, ["Props/C04.vo"], gen_needed=("BitFns",),
-                          allow_axioms=("ClassicalDedekindReals.sig_forall_dec", "ClassicalDedekindReals.sig_not_dec",
-                                        "FunctionalExtensionality.functional_extensionality_dep"))
+    real_axioms = ("ClassicalDedekindReals.sig_forall_dec", "ClassicalDedekindReals.sig_not_dec",
+                   "FunctionalExtensionality.functional_extensionality_dep")
+    # Gen/TreeCompare.v: treecompare.py translated from its AST on this run (py/dv/gen_treecompare.py); Props/C04.v
+    # (generated_*) proves it equal to the hand-written model, so an edit of the source breaks a proof here
+    ok = core.proof_stage(ctx, ["Props/C04.vo"], gen_needed=("BitFns", "TreeCompare"), allow_axioms=real_axioms)
+    if gen_overwritten():
+        # another check running concurrently regenerates coq/Gen from its own DV_REPO: build again
+        ctx.notes.append("coq/Gen/TreeCompare.v was overwritten by a concurrent run during the build; proof stage repeated")
+        ctx.obligations = []
+        ctx.trusted = []
+        ok = core.proof_stage(ctx, ["Props/C04.vo"], gen_needed=("BitFns", "TreeCompare"), allow_axioms=real_axioms)
+        if gen_overwritten():
+            ctx.obligation("coq/Gen/TreeCompare.v stable during the build (no concurrent regeneration)", False)
+            ok = False
     stray = [t for t in ctx.trusted if t.startswith("axiom ") and not t.endswith("used by euclid_triangle_sqrt")]
     ctx.obligation("only euclid_triangle_sqrt depends on axioms (the three of Coq.Reals)", not stray)
     if stray:
